@@ -228,8 +228,12 @@ class Problem:
         self._dense[k] = (t_end, sol.sol)
         return sol.sol
 
-    def kappa(self, t_end=None, npts=64, delta=1e-6):
-        """Sensitivity of the reference flow: max_t || d phi_t / d x0 ||_2 over [t0, t_end] (finite differences)."""
+    def kappa(self, t_end=None, npts=49, delta=1e-6):
+        """Sensitivity of the reference flow over [t0, t_end]:  max_{s <= t} || d phi_{s->t} / dx ||_2.
+
+        An error committed at time s is carried to time t by Phi(t) Phi(s)^-1, which can be much larger than
+        ||Phi(t)|| itself (for area-preserving flows up to ||Phi||^2).  Phi is obtained by finite differences of
+        the reference flow on ``npts`` sample times."""
         t_end = self.t0 + self.T if t_end is None else float(t_end)
         tt = np.linspace(self.t0, t_end, npts)
         base = self.flow(self.x0, tt, rtol=1e-11)
@@ -239,7 +243,23 @@ class Problem:
             xp[i] += delta
             cols.append((self.flow(xp, tt, rtol=1e-11) - base) / delta)
         J = np.stack(cols, axis=2)          # (npts, n, n)
-        return float(max(1.0, max(np.linalg.norm(J[k], 2) for k in range(npts))))
+        return two_time_sensitivity(J)
+
+
+def two_time_sensitivity(J):
+    """max_{i <= j} || J_j J_i^-1 ||_2 for a sequence of fundamental matrices J_k = Phi(t_k) (J_0 = identity)."""
+    J = np.asarray(J, dtype=float)
+    best = 1.0
+    for i in range(J.shape[0]):
+        try:
+            inv = np.linalg.inv(J[i])
+        except np.linalg.LinAlgError:
+            continue
+        if not np.all(np.isfinite(inv)) or np.linalg.cond(J[i]) > 1e7:
+            continue
+        M = J[i:] @ inv
+        best = max(best, float(np.max(np.linalg.norm(M, ord=2, axis=(1, 2)))))
+    return best
 
 
 # ------------------------------------------------------------------------------------- closed forms (longdouble)
